@@ -247,6 +247,14 @@ func (vm *VM) ScopeDepth() int {
 	return scope.Depth()
 }
 
+// KeepScopeAsRoot - see Scope.FlattenToRoot
+func (vm *VM) KeepScopeAsRoot() {
+	scope := vm.getCurrentScope()
+	if scope != nil {
+		scope.FlattenToRoot()
+	}
+}
+
 // BeginJoinedScope - see Scope.BeginJoinedScope
 func (vm *VM) BeginJoinedScope() {
 	scope := vm.getCurrentScope()
